@@ -6988,7 +6988,11 @@ impl<T: Deserialize + Packed> Deserialize for Vec<T> {
             if num_elems == 0 {
                 return Ok(Vec::new());
             }
-            let num_bytes = elem_size * num_elems;
+            let Some(num_bytes) = elem_size.checked_mul(num_elems) else {
+                // A corrupt length: the product would wrap, and a Vec claiming
+                // `num_elems` elements would be built over a much smaller buffer.
+                return Err(SavefileError::SizeOverflow);
+            };
 
             let layout = if let Ok(layout) = std::alloc::Layout::from_size_align(num_bytes, align) {
                 Ok(layout)
